@@ -27,6 +27,8 @@ GROUPS = {
     "guards_heating": ("Poupool.Properties.DecisionsTie.Guards", ["heating_allow", "heating_ready"], ["heatingAllow", "heatingReady"]),
     "eco_polls": ("Poupool.Properties.DecisionsTie.Eco", ["eco_waiting_poll", "eco_normal_poll", "eco_tank_poll", "eco_polls_wash_iff_due", "eco_polls_rearm", "ecoStep_waiting", "ecoStep_normal", "ecoStep_tank"],
                   ["ecoNormalPoll", "ecoWaitingPoll", "ecoTankPoll"]),
+    "open_polls": ("Poupool.Properties.DecisionsTie.Polls", ["comfort_forces_only_when_idle", "comfort_poll", "open_mode_polls_rearm", "open_mode_polls_account"],
+                   ["comfortPoll", "standbyNormalPoll", "overflowNormalPoll", "heatingRunningPoll"]),
     "heating": ("Poupool.Properties.DecisionsTie.Heating", ["heating_waiting_poll", "heating_asks_only_when_due", "heating_heating_poll", "heating_reads_the_reader", "heating_set_next_start", "heating_setpoint_schedule", "heating_start_hour_schedule", "heating_exit_schedule", "heating_exit_effects"],
                 ["heatingReadTemperature", "heatingWaitingPoll", "heatingHeatingPoll", "heatingSetNextStart", "heatingSetpoint", "heatingStartHour", "heatingExit"]),
 }
